@@ -1,6 +1,7 @@
 SPECIFICATION Spec
 CONSTANTS
   NSignals = 3
+  RecheckAfterBusy = TRUE
   BeginBeforeSend = TRUE
 VIEW View
 INVARIANTS AtMostOne SuppressBalanced NeverWedged AnsweredAll
